@@ -512,6 +512,18 @@ void auditCumulativeNested(const DD& d, const View& v, const Ctx& c, const Vdoub
   }
 }
 
+// The classes are a partition: a value of the domain lies in exactly one class, and the two lookups of the
+// interface ("the value of the category the value is in" / "the index of the category the value is in") are two
+// views of that one class.  Whatever convention decides a value sitting exactly on an interior bound (the statement
+// leaves it open: either neighbour is accepted by lookup.value / lookup.index), both lookups must name the same
+// class: getCategory(getCategoryIndex(x)) == getValueCategory(x).  An index outside [0,n) is lookup.index's business.
+void lookupAgree(const View& v, const Ctx& c, double x, const vrt::Outcome& ov, double gotValue, const vrt::Outcome& oi, size_t gotIndex, const string& cl)
+{
+  if (!ov.returned() || !oi.returned() || gotIndex >= v.n) return;
+  vrt::expect(vrt::sameDouble(v.cats[gotIndex], gotValue), "lookup.agree", cl,
+      [&] { return c.W("getCategoryIndex(" + vrt::hexd(x) + " = " + str(x) + ")=" + str(gotIndex) + " is the class of value " + str(v.cats[gotIndex]) + " but getValueCategory of the same argument returns " + str(gotValue) + ": the two lookups put one value into two different classes; " + viewStr(v)); });
+}
+
 // clause: value -> class lookup
 void lookupProbe(const DD& d, const View& v, const Ctx& c, double x, size_t k, long altK, const string& where)
 {
@@ -525,6 +537,7 @@ void lookupProbe(const DD& d, const View& v, const Ctx& c, double x, size_t k, l
   bool oki = oi.returned() && (gi == k || (altK >= 0 && gi == static_cast<size_t>(altK)));
   vrt::expect(oki, "lookup.index", c.fam + ":" + pos + ":" + where + (oi.returned() ? "" : ":" + string(oi.kind == vrt::Outcome::BppException ? "bpp-exception" : "foreign-exception")),
       [&] { return c.W("getCategoryIndex(" + str(x) + ") " + oi.text() + " " + str(gi) + " expected " + str(k) + "; " + viewStr(v)); });
+  lookupAgree(v, c, x, o, got, oi, gi, c.fam + ":" + pos + ":" + where);
 }
 
 void auditLookup(const DD& d, const View& v, const Ctx& c, vrt::Rng& rng)
@@ -553,7 +566,20 @@ void auditLookup(const DD& d, const View& v, const Ctx& c, vrt::Rng& rng)
       double x = L + w * rng.real(0.01, 0.99);
       if (x > L && x < U) lookupProbe(d, v, c, x, k, -1, "random");
     }
-    if (k > 0 && v.B[k - 1] < L) lookupProbe(d, v, c, L, k, static_cast<long>(k) - 1, "on-interior-bound"); // either neighbour accepted
+    if (k > 0 && v.B[k - 1] < L)
+    {
+      // exactly on the bound (what getBound(i) / getBounds() hand to the client): either neighbour accepted, but the
+      // value lookup and the index lookup must agree on which one (lookup.agree, judged inside lookupProbe)
+      lookupProbe(d, v, c, L, k, static_cast<long>(k) - 1, "on-interior-bound");
+      vrt::cover(c.fam + ":lookup:on-interior-bound");
+      // the neighbouring representable numbers are strictly inside one class: no ambiguity there
+      if (!isInf(L))
+      {
+        double xb = std::nextafter(L, -INFINITY), xa = std::nextafter(L, INFINITY);
+        if (xb > v.B[k - 1] && xb < L) lookupProbe(d, v, c, xb, k - 1, -1, "one-ulp-below-interior-bound");
+        if (xa > L && xa < U) lookupProbe(d, v, c, xa, k, -1, "one-ulp-above-interior-bound");
+      }
+    }
   }
   // closed domain ends belong to the first / last class
   if (!v.slo && v.B[0] < v.B[1]) lookupProbe(d, v, c, v.lo, 0, -1, "on-closed-lower-end");
@@ -957,6 +983,9 @@ bool auditInvMixed(const DD& d, Node& m, Ctx c, vrt::Rng& rng)
     double got = NAN;
     vrt::Outcome o = vrt::capture([&] { got = d.getValueCategory(m.inv); });
     vrt::expect(o.returned() && vrt::sameDouble(got, m.inv), "lookup.value", c.fam + ":invariant" + (m.inv == v.lo || m.inv == v.hi ? ":on-domain-end" : ""), [&] { return c.W("getValueCategory(invariant " + str(m.inv) + ") " + o.text() + " " + str(got) + "; " + viewStr(v)); });
+    size_t gi = static_cast<size_t>(-1);
+    vrt::Outcome oi = vrt::capture([&] { gi = d.getCategoryIndex(m.inv); });
+    lookupAgree(v, c, m.inv, o, got, oi, gi, c.fam + ":invariant" + (m.inv == v.lo || m.inv == v.hi ? ":on-domain-end" : ""));
   }
   auditCompoundParent(d, v, c, nodePTol(m), nodeETol(m) + 1e-12 * std::fabs(m.inv));
   // quantile = generalised inverse of the (right-continuous) cumulative
@@ -1523,11 +1552,12 @@ int main(int argc, char** argv)
     "class-count changes are only applied to trees whose leaves are all discretised continuous families (simple / constant have a user-given class count)",
     "cumulative class queries are made with the stored class values and with arguments within the documented tolerance of a class value (1 ulp and 0.45 x precision() above/below, nested class values merged into a compound class); judged only when the argument is closer than 0.95 x precision() minus rounding and no other class lies within 4 x precision()",
     "lookup on an interior bound accepts either neighbouring class; lookups outside the domain are unjudged (must not abort)",
+    "the classes partition the domain: getValueCategory and getCategoryIndex of the same argument name the same class (lookup.agree), also on an interior bound; one representable number below / above an interior bound belongs strictly to the class on that side",
     "qProb of simple / constant: any generalised-inverse convention accepted; mixture qProb may raise the library's exception",
   };
   meta.requiredClauses = { "count.requested", "prob.sum", "prob.nonnegative", "values.increasing", "values.in-interval", "bounds.ordered", "mass.equal", "mass.parent",
                            "scheme.equal-interval", "mean.preserved", "parent.monotone", "parent.derivative", "parent.inverse", "parent.current-parameters",
-                           "lookup.value", "lookup.index", "cumulative.inf", "cumulative.iinf", "cumulative.sup", "cumulative.ssup",
+                           "lookup.value", "lookup.index", "lookup.agree", "cumulative.inf", "cumulative.iinf", "cumulative.sup", "cumulative.ssup",
                            "compound.simple-classes", "compound.invariant-classes", "compound.mixture-classes", "restrict.domain" };
   return vrt::run(argc, argv, "C09", groups, meta);
 }
